@@ -57,10 +57,44 @@ def is_multiple_spec(a, b, axis=None, rtol=1.0e-5, atol=1.0e-8):
 
 
 @contextlib.contextmanager
-def standard_stubs(divpow2=True, is_multiple=True):
+def standard_stubs(divpow2=True, is_multiple=True, segment_contains=False):
     with contextlib.ExitStack() as st:
+        if segment_contains:
+            st.enter_context(patch.opaque("geometer.shapes.SegmentTensor.contains", segment_contains_stub))
         if divpow2:
             st.enter_context(patch.opaque("geometer.point._divide_by_power_of_two", divide_by_power_of_two_stub))
         if is_multiple:
             st.enter_context(patch.opaque("geometer.utils.math.is_multiple", is_multiple_spec))
         yield
+
+
+def segment_contains_formula(ctx_like, a, b, p):
+    """contract of SegmentTensor.contains for a finite 2D segment ab (any homogeneous representatives) and any point p:
+    p is finite, on the line ab, and its foot parameter lies in [0, 1].  Plain arithmetic on lists; returns a tuple of the
+    quantities (det, pz, n1, n2) with   contains  <=>  det == 0 and pz != 0 and n1 >= 0 and n2 >= 0"""
+    az, bz, pz = a[2], b[2], p[2]
+    X = [p[0] * az - a[0] * pz, p[1] * az - a[1] * pz]
+    Y = [b[0] * az - a[0] * bz, b[1] * az - a[1] * bz]
+    s1, s2 = pz * az, bz * az
+    xy = X[0] * Y[0] + X[1] * Y[1]
+    yy = Y[0] * Y[0] + Y[1] * Y[1]
+    det = a[0] * (b[1] * p[2] - b[2] * p[1]) - a[1] * (b[0] * p[2] - b[2] * p[0]) + a[2] * (b[0] * p[1] - b[1] * p[0])
+    n1 = xy * s1 * s2
+    n2 = yy * s1 * s1 - xy * s1 * s2
+    return det, pz, n1, n2
+
+
+def segment_contains_stub(self, other, tol=1e-8):
+    """opaque SegmentTensor.contains (2D, single finite segment, single point); contract verified by
+    C16/segment.contains.general.2d on the real body"""
+    import geometer
+
+    if self.dim != 2 or self.free_indices != 0 + 1 and False:
+        raise S.EngineGap("segment contains stub: only 2D")
+    arr = _unview(self.array)
+    o = _unview(other.array)
+    if arr.shape != (2, 3) or o.shape != (3,):
+        raise S.EngineGap("segment contains stub: only single segments / points")
+    a, b, p = list(arr[0]), list(arr[1]), list(o)
+    det, pz, n1, n2 = segment_contains_formula(None, a, b, p)
+    return band(mk_eq0(Sym.const(det)), bnot(mk_eq0(Sym.const(pz))), Sym.const(n1) >= 0, Sym.const(n2) >= 0)
